@@ -258,6 +258,7 @@ void drive_ctrl( Bed& b, unsigned long ops )
                 if ( gen.pending_interval ) { b.current_interval = gen.pending_interval; gen.pending_interval = 0; }
                 gen.has_instant = false;
                 b.instant_pending = false;
+                b.first_instant_heard = false;
             }
 
             if ( !b.settle() )
@@ -380,7 +381,7 @@ void drive_timeout( Bed& b, unsigned long ops )
                 case 0:
                 {
                     a = bytes( 12, 0 ); a[ 0 ] = LL_CONNECTION_UPDATE_IND; a[ 1 ] = 1; put16( a, 2, 0 ); put16( a, 4, cp.interval ); put16( a, 6, 0 ); put16( a, 8, cp.timeout );
-                    put16( a, 10, static_cast< std::uint16_t >( counter + 6 ) ); answer_name = "conn_update_ind"; break;
+                    put16( a, 10, static_cast< std::uint16_t >( counter + 6 ) ); answer_name = "conn_update_ind"; b.instant_pending = true; break;
                 }
                 case 1: a = bytes{ LL_REJECT_EXT_IND, LL_CONNECTION_PARAM_REQ, 0x1a }; answer_name = "reject_ext_ind"; break;
                 case 2: a = bytes{ LL_REJECT_IND, 0x1a }; answer_name = "reject_ind"; break;
@@ -550,6 +551,7 @@ void drive_life( Bed& b, unsigned long ops )
             const std::uint16_t instant = static_cast< std::uint16_t >( b.ll->connection_event_counter() + 3 + b.rng.below( 4 ) );
             put16( u, 10, instant );
             b.cen.queue_control( u );
+            b.instant_pending = true;
             b.run_once();
             m.cls( "life:update_pending_at_end" );
             // sometimes the end begins right in front of the instant
